@@ -11,7 +11,7 @@ S1  OpusProps.C12: reset_eq_init / reset_indistinguishable / dec_reset_eq_init o
 S3  harness/c12_state.c `tie`: members after init / after OPUS_RESET_STATE (states reached by random histories and
     poisoned states) / after every setting request, compared exactly with the Lean model (suite `misc`).
 S4  harness/c12_twin.c: twin objects — memcpy clone vs. original, reset vs. new object with the settings replayed,
-    same history twice with differently poisoned heap/stack and decoy objects — for encoder, decoder, multistream
+    same history twice (zero-filled vs 0x5A-poisoned heap and stack, decoy objects alive) — for encoder, decoder, multistream
     encoder/decoder, projection encoder/decoder, repacketizer, at every OPUS_VERIF_ARCH_CAP level; byte equality of
     packets, PCM bit patterns, final ranges and getter values.  Every difference is a witness; encoder/decoder reset
     differences are attributed to the surviving member that causes them (c12_state attrib)."""
@@ -45,7 +45,7 @@ RULE = ('twin-object cases drawn from the seed: (object kind, Fs, channels, appl
 NOT_COVERED = [
     'determinism / copyability / reset-equivalence of the DSP interior (SILK, CELT, tonality analysis, resamplers): searched '
     'by the twin harness (byte equality under poisoned heap and stack, decoy objects, every RTCD level), not proved',
-    'absence of uninitialised reads is explored with 0xA5/0x5A heap+stack poisoning and ASan; no MemorySanitizer/valgrind run',
+    'absence of uninitialised reads is explored with zero / 0x5A / 0xA5 heap+stack fills and ASan; no MemorySanitizer/valgrind run',
     'multistream / projection OPUS_GET_BITRATE and OPUS_GET_FORCE_CHANNELS after a reset report what the layer wrote into the '
     'stream encoders for the previous frame (rewritten before every encode); they are not compared in reset mode',
     'OPUS_SET_VOICE_RATIO (private, overwritten by every non-silent frame) is not used in histories; OPUS_SET_FORCE_MODE '
@@ -289,7 +289,7 @@ def _witness(ctx, j, m, attrib=True):
         cause = _attrib(ctx, kind, idx)
     what = {'clone': 'a memcpy clone of get_size bytes taken at op %s' % m.group(7),
             'reset': 'the object after OPUS_RESET_STATE at op %s vs. a newly initialised object with the same settings replayed' % m.group(7),
-            'determ': 'the same history run twice (heap/stack 0xA5 vs 0x5A, decoy objects alive)'}[mode]
+            'determ': 'the same history run twice (heap/stack zero-filled vs 0x5A-poisoned, decoy objects alive)'}[mode]
     return {
         'suite': 'twin-%s-%s' % (mode, kind),
         'input': 'c12_twin case %s %s %d %d%s%s class=%s %s' % (
@@ -367,7 +367,7 @@ def search(ctx):
     return {'cases': cases, 'distinct': len(classes), 'seconds': round(time.time() - t0, 1),
             'oracle': 'twin objects fed identical calls must return identical codes, packet bytes, PCM bit patterns, final ranges '
                       'and getter values: clone vs original (original then poisoned and freed), reset vs new object with the '
-                      'settings replayed, same history under 0xA5 vs 0x5A heap+stack with decoy objects; plain and ASan/UBSan builds; '
+                      'settings replayed, same history under zero-filled vs 0x5A-poisoned heap+stack with decoy objects; plain and ASan/UBSan builds; '
                       'RTCD caps %s + uncapped' % (CAPS_QUICK if ctx.quick else CAPS_THOROUGH),
             'per_suite_ok_diff': {k: list(v) for k, v in sorted(per.items())},
             'causes': sorted(set(_ckey(w['cause']) for w in witnesses if w['cause'])),
